@@ -94,12 +94,12 @@ theorem exhausted_paren {env : PEnv} {input rest : Input} (h : expect input "(" 
   unfold simpleL; simp only [h, nestErr]
 
 theorem exhausted_not {env : PEnv} {input rest : Input} {u : Unit}
-    (h0 : expect input "(" = none) (h : lexEnum unaryOps input = some (u, rest)) :
+    (h0 : expect input "(" = none) (h : lexUnary env input = some (u, rest)) :
     simpleL env none input = errAt .nestingLimitExceeded input := by
   unfold simpleL; simp only [h0, h, nestErr]
 
 theorem exhausted_quant {env : PEnv} {input rest : Input} {op : QOp}
-    (h0 : expect input "(" = none) (h1 : lexEnum unaryOps input = none)
+    (h0 : expect input "(" = none) (h1 : lexUnary env input = none)
     (h : lexQuantCall input = some (op, rest)) :
     simpleL env none input = errAt .nestingLimitExceeded (skipSpace rest) := by
   unfold simpleL; simp only [h0, h1, h, nestErr]
